@@ -48,7 +48,13 @@ class Cobolt_Laser_06_01(QMI_Instrument):
     def open(self) -> None:
         _logger.info("Opening connection to %s", self._name)
         self._transport.open()
-        self._transport.discard_read()
+        try:
+            self._transport.discard_read()
+        except Exception:
+            # Close the transport if an error occurred during initialization
+            # of the instrument.
+            self._transport.close()
+            raise
         super().open()
 
     @rpc_method
